@@ -392,11 +392,22 @@ def rule_state_clear(prog):
 
 def rule_osh_end(prog):
     """R-OSH-END (C06): when a one-shot ends, every per-activation list of the one-shot state is emptied."""
-    res = RuleResult("R-OSH-END", "the block of tick_osh that ends the one-shot empties every list of OneShotState", floor=3)
+    res = RuleResult("R-OSH-END", "the block of tick_osh that ends the one-shot empties every list of OneShotState", floor=4)
     f = prog.fn("kanata_keyberon::layout::OneShotState::tick_osh")
     res.fn(f)
     adt = prog.adt("kanata_keyberon::layout::OneShotState")
     lists = [fl["name"] for fl in adt["variants"][0]["fields"] if "ArrayDeque" in fl["ty"] or "Vec<" in fl["ty"]]
+    # the three lists hold (subsets of) the same one-shot coordinates: same element type, same capacity, same overflow behaviour.
+    # A deferred-release list smaller than the list of active one-shot keys pushes a still active key out when it fills up.
+    tys = {fl["name"]: fl["ty"] for fl in adt["variants"][0]["fields"] if fl["name"] in lists}
+    same = len(set(tys.values())) == 1
+    res.inst("lists-same-capacity", where=f.loc, types=sorted(set(tys.values())), ok=same)
+    res.oblige(same)
+    if not same:
+        res.viol("lists-same-capacity", f.loc,
+                 "the lists of OneShotState no longer have the same type / capacity (%s): with more stacked one-shot keys than the smaller "
+                 "list holds, the release of a still active one-shot key is pushed out and performed at once, before the next key"
+                 % ", ".join("%s: %s" % (k, v.split("<", 1)[-1][:60]) for k, v in sorted(tys.items())))
     empt = {}
     for bi, t in f.calls():
         short = (callee_name(t) or "").split("::")[-1]
